@@ -3,8 +3,8 @@
    These are the definitions the correspondence compares the code with; WrapProofs.v shows that
    inside the stated range guard (dur_guard: the finite lengths add up to at most MaxInt64 and
    |d| is representable) they coincide with the integer model the algebraic theorems are about.
-   Not covered here (inputs of the harness stay small there): the running offset `cur` inside
-   segmentpb.Sum / calcCuts.  No proofs here. *)
+   segmentpb.Sum / calcCuts have their int64 version too (sum_w); modepb.Sum is modelled with the
+   integer Sum (inputs of the harness stay small there).  No proofs here. *)
 From SC Require Import Base.Prelude Timeline.Timestamp Timeline.Segment Timeline.Mode.
 
 Definition max64 : Z := 9223372036854775807.
@@ -72,6 +72,36 @@ Definition shift_w (d : Z) (l : list seg) : list seg :=
              else mkSeg 0 (Some d) :: l
            else shift_neg_w (neg64 d) 0 l
        end.
+
+(* sum.go calcCuts / Sum with the running offset and the segment length as int64 *)
+Fixpoint cuts_of_w (cur : Z) (l : list seg) : list (Z * Z) :=
+  match l with
+  | [] => []
+  | s :: r =>
+      let rise := if mag s =? 0 then [] else [(cur, mag s)] in
+      match len s with
+      | None => rise
+      | Some n =>
+          rise ++ (if mag s =? 0 then [] else [(add64 cur n, - mag s)]) ++ cuts_of_w (add64 cur n) r
+      end
+  end.
+Definition calc_cuts_w (ls : list (list seg)) : list (Z * Z) := sort_cuts (flat_map (cuts_of_w 0) ls).
+Fixpoint sum_loop_w (cuts : list (Z * Z)) (done : list seg) (open : option Z) (last : Z)
+  : list seg * option Z :=
+  match cuts with
+  | [] => (done, open)
+  | (at_, delta) :: r =>
+      let m := match open with None => 0 | Some m => m end in
+      let length := sub64 at_ last in
+      if length =? 0 then sum_loop_w r done (Some (m + delta)) last
+      else sum_loop_w r (mkSeg m (Some length) :: done) (Some (m + delta)) at_
+  end.
+Definition sum_w (ls : list (list seg)) : list seg :=
+  let '(done, open) := sum_loop_w (calc_cuts_w ls) [] None 0 in
+  match open with
+  | None => []
+  | Some m => if m <=? 0 then rev done else rev done ++ [mkSeg m None]
+  end.
 
 (* ---- modes: d = t.Sub(st) saturates ---- *)
 Definition mode_d (t : Z) (m : mode) : Z := sat64 (t - t_or_st t m).
@@ -148,6 +178,7 @@ Definition mode_sum_v0 (ms : list mode) : option mode :=
 Definition fin_len_z (s : seg) : Z := match len s with Some n => n | None => 0 end.
 Definition total_len (l : list seg) : Z := sumZ (map fin_len_z l).
 (* lengths non-negative, their total representable, and the offset d together with the total too *)
+Definition lens_ok_b (l : list seg) : bool := segs_wf l && (total_len l <=? max64).
 Definition dur_guard (d : Z) (l : list seg) : bool :=
   segs_wf l && (total_len l <=? max64) && (- max64 <=? d) && (d <=? max64) &&
   (Z.abs d + total_len l <=? max64).
